@@ -2,12 +2,15 @@
 # run checks against a seeded change applied to /repo, then undo it
 # usage: tools/run_seed.sh <candidate-dir> <PROP> [PROP...]
 cand="$(cd "$1" && pwd)"; shift
-git -C /repo apply "$cand/patch.diff" || { echo "patch does not apply"; exit 2; }
+# evidence files describe the unchanged tree: keep them out of the way while a seeded change is applied
+keep=$(mktemp -d /tmp/evidence-keep-XXXXXX); cp -a /verif/evidence/. "$keep"/
+git -C /repo apply "$cand/patch.diff" || { echo "patch does not apply"; rm -rf "$keep"; exit 2; }
 for p in "$@"; do
   out=$(cd /verif && ./check "$p" --tier quick 2>&1); rc=$?
   echo "== $(basename $cand) $p exit=$rc"
   echo "$out" | grep -E "VIOLATION|infrastructure|Traceback" | head -3
 done
 git -C /repo checkout -- .
+cp -a "$keep"/. /verif/evidence/; rm -rf "$keep"
 git -C /repo status --short | head -3
 /venv/bin/python /verif/translator/extract.py >/dev/null 2>&1
